@@ -136,6 +136,8 @@ def gen(rng, tier):
         cases.append(chain_scenario(rng))
     for _ in range(1000 if tier == "quick" else 15000):
         cases.append(K.rand_program(rng, rng.randrange(1, 7), rng.randrange(2, 21), weights=W, cancellers=False))
+    # Deferred debugging must not change anything observable
+    cases += K.with_debug(cases, rng, 0.08 if tier == "quick" else 0.04)
     return cases
 
 
@@ -164,11 +166,14 @@ def corpus():
 
 def shrink(case):
     ops = case["ops"]
+    extra = {"debug": True} if case.get("debug") else {}
     for i in range(len(ops)):
-        yield {"canc": case["canc"], "ops": ops[:i] + ops[i + 1:]}
+        yield {"canc": case["canc"], "ops": ops[:i] + ops[i + 1:], **extra}
 
 
 def histogram(case, obs):
+    if case.get("debug"):
+        return "under defer.setDebugging(True)"
     if case.get("word"):
         return f"word len={len(case['word'])}"
     chained = sum(1 for o in case["ops"] if o[0] == "add" and any(b and b[0] == "ret" and b[1][0] == "D" for b in o[2:4]))
@@ -183,14 +188,14 @@ SPEC = Spec(
     to_coq=K.coq_program,
     nontrivial=lambda c, o: "R" in o,
     histogram=histogram,
-    describe=lambda c: {"n_deferreds": len(c["canc"]), "ops": c["ops"][:14]},
+    describe=lambda c: {"n_deferreds": len(c["canc"]), "ops": c["ops"][:14], "debug": bool(c.get("debug"))},
     rule="every program of length <= 3, 60% of length 4, 4% of length 5 (quick) / <= 4, 15% of 5, 1% of 6 over a "
          "12-letter alphabet (thorough) on two Deferreds {outer callback returns inner, add pass-through callback to "
          "inner / outer, fire inner / outer, pause / unpause inner / outer}; 1 500 (15 000) chain scenarios (2-5 "
          "Deferreds waiting on each other, late callbacks, pauses on waiting Deferreds, unbalanced unpauses); 1 000 "
          "(15 000) random programs over 1-6 Deferreds, 2-20 operations, callback behaviours {value, None, Failure, "
          "Deferred d_i, raise (Exception subclasses and GeneratorExit / asyncio.CancelledError / SystemExit / "
-         "KeyboardInterrupt / a BaseException subclass), pass-through} on either or both sides.  non-trivial = at least one user callback ran; "
+         "KeyboardInterrupt / a BaseException subclass), pass-through} on either or both sides.  8% (4%) of all cases once more under defer.setDebugging(True).  non-trivial = at least one user callback ran; "
          "distinct by (case, observation)",
     trusted=["hand-written kernel model coq/Lib/DeferredK.v (tied by this correspondence run only)",
              "callbacks are fixed behaviours; callbacks that call back into Deferred methods are not modelled",
